@@ -1160,6 +1160,6 @@ func c17TransformSeparators(c *core.Check) {
 // c17DeadArithmetic (R11): in the packages that build transforms (svg, matrix, html/document) no arithmetic result is
 // dropped: the rotation angle of an SVG marker used to be computed and never given to the transform.
 func c17DeadArithmetic(c *core.Check) {
-	r := c.Rule("R11", "no arithmetic result of svg, matrix and html/document is unused (go/ssa keeps dead values: a sum, difference, product or quotient without referrer is spelled in the source and dropped) — the angle of a marker must reach its transform", 124)
+	r := c.Rule("R11", "no arithmetic result of svg, matrix and html/document is unused (go/ssa keeps dead values: a sum, difference, product or quotient without referrer is spelled in the source and dropped) — the angle of a marker must reach its transform", 125)
 	deadArithmeticRule(c, r, nil, "svg", "matrix", "html/document")
 }
